@@ -87,6 +87,7 @@ type scheduler struct {
 	mvc        map[*value]*mutexVC
 	chvc       map[*schan]vclock
 	wgvc       map[*value]vclock
+	sharedObjs map[any]bool
 	races      map[string]bool
 	steps      int
 }
@@ -104,6 +105,7 @@ func (s *scheduler) reset() {
 	s.mvc = map[*value]*mutexVC{}
 	s.chvc = map[*schan]vclock{}
 	s.wgvc = map[*value]vclock{}
+	s.sharedObjs = map[any]bool{}
 	s.races = map[string]bool{}
 	s.steps = 0
 }
@@ -373,12 +375,27 @@ func (s *scheduler) accessCheckAt(i *interpreter, obj any, write bool, what, her
 	if !s.enabled || len(s.threads) < 2 || i.path == nil {
 		return
 	}
-	t := s.cur
 	rec := s.access[obj]
 	if rec == nil {
 		rec = &accessRec{reads: map[int]epoch{}}
 		s.access[obj] = rec
 	}
+	// an object already touched by another thread is effectively shared: its accesses become
+	// schedule points too (check-then-act sequences inside a read-locked region interleave)
+	if _, isCell := obj.(*value); !isCell {
+		me := s.cur.id
+		contended := rec.lastWrite != nil && rec.lastWrite.tid != me
+		for tid := range rec.reads {
+			if tid != me {
+				contended = true
+			}
+		}
+		if contended || s.sharedObjs[obj] {
+			s.tick()
+			s.yield(i, "shared map access")
+		}
+	}
+	t := s.cur
 	conflict := func(e epoch, kind string) {
 		if e.tid == t.id || e.clk <= t.vc.at(e.tid) {
 			return
